@@ -8,7 +8,9 @@ CFG = {'assumptions': ['f64 inputs cross the boundary as bit patterns and are de
  'lean_files': ['GeoModel/Area.lean', 'GeoModel/Winding.lean', 'GeoModel/SimpleRing.lean', 'GeoModel/Orient.lean',
                 'GeoModel/Ops/C05.lean', 'GeoProofs/Lemmas/C05Area.lean', 'GeoProofs/Lemmas/C05Winding.lean',
                 'GeoProofs/Lemmas/C05PConvex.lean', 'GeoProofs/Lemmas/C05PRotate.lean',
-                'GeoProofs/Lemmas/C05PFloat.lean'],
+                'GeoProofs/Lemmas/C05PFloat.lean', 'GeoModel/TRANPrelude.lean', 'GeoModel/Gen/AreaGen.lean',
+                'GeoProofs/Lemmas/TRANArea.lean'],
+ 'translator': True,
  'rule': 'star-shaped (oblique, non-convex), two-sided histogram (rectilinear, collinear vertices) and junk '
          'rings on 3..8 grids under the 6 grid similarities, random start vertex (least vertex forced last in '
          '1/4), either direction, repeated vertices, doubly closed or open; polygons with 0-3 holes of '
@@ -31,7 +33,9 @@ CFG = {'assumptions': ['f64 inputs cross the boundary as bit patterns and are de
                   'area_rounding_error is the worst-case gamma_(n+3) * sum of product magnitudes under the standard '
                   'model without underflow; it is quadratic in n where the tolerance is linear)',
                   'regime R: a polygon with holes whose exact exterior area is below the tolerance is a '
-                  'near-tie of the sign branch in Polygon::signed_area and is SKIPped (counted, ~0.4%)']}
+                  'near-tie of the sign branch in Polygon::signed_area and is SKIPped (counted, ~0.4%)',
+                  'translator/rs2lean.py + rsexpr.py (statement fragment; explicit choices: Vec = List, lines() = consecutive '
+                  'pairs, Line::map_coords(f) = (f start, f end), abs = rabs, numbers exact — no overflow / rounding)']}
 
 MANIFEST = {'note': 'Trusted: Lean 4.33 kernel (axioms propext, Classical.choice, Quot.sound only; audited per theorem '
          'each run; no sorry, no native_decide, no added axioms); the Lean compiler running the model; the '
@@ -66,4 +70,7 @@ MANIFEST = {'note': 'Trusted: Lean 4.33 kernel (axioms propext, Classical.choice
          'of (|dx_i dy_i+1| + |dy_i dx_i+1|) of the shifted coordinates, and (1+u)^k - 1 <= ku/(1-ku). The real code is run on the same inputs: areas '
          'bit-exact on integer grids (offsets to 2^27 and 1e8), within the stated rounding bound otherwise; '
          "winding and orient exact; the shoelace/sign/ring-set clauses are evaluated on the implementation's "
-         'own outputs.'}
+         'own outputs. Translator tie (TRAN, area_eq_source): twice_signed_ring_area (guards, shift, accumulating loop as a '
+         'left fold), get_linestring_area, Polygon / MultiPolygon signed and unsigned area and Triangle::signed_area are '
+         'regenerated from area.rs on every run and proved equal to the hand-written model, so the theorems above are about '
+         'terms read off the current source.'}
